@@ -104,7 +104,9 @@ def gen_put(rng, nargs=None, allow_dots=True, allow_missing=True, allow_mount=Tr
     step = {'cmd': 'put', 'argv': argv + ['--'] + [a['arg'] for a in args], 'now': [2024, 5, 6, 7, 8, 9, 0], 'stdin': stdin, 'env': env,
             'randints': [rng.randint(0, 65535) for _ in range(8)]}
     scn = lay.scenario([step], cwd=cwd, extra=nodes)
-    return scn, {'args': args, 'mode': mode, 'cwd': cwd, 'lay_home_trash': lay.home_trash, 'mounts': list(lay.mounts)}
+    meta = {'args': args, 'mode': mode, 'cwd': cwd, 'lay_home_trash': lay.home_trash, 'mounts': list(lay.mounts)}
+    scn['judge_meta'] = meta            # travels with the scenario into a replay file: the replay judges with what the run judged with
+    return scn, meta
 
 
 def new_trash_items(before, after):
